@@ -6,7 +6,7 @@ ALL = [f'C{i:02d}' for i in range(1, 20)]
 
 CHECKS = {
  'C06': dict(
-   technique='Coq proof (wall depths form a deltaz-net: Q arithmetic on n_repeat = ceil((h-z_off)/deltaz); chain files hold only moves) + token-level differential of every file of the exported tree + run of the whole tree (FARCALL inlined) on the reference controller + shapely containment of the chains + source translator: TrenchColumn.n_repeat is re-translated from /repo on every run and proved to be the ceiling the depth-net theorems are about (coq/tie/EquivTc.v)',
+   technique='Coq proof (wall depths form a deltaz-net: Q arithmetic on n_repeat = ceil((h-z_off)/deltaz); chain files hold only moves) + token-level differential of every file of the exported tree + run of the whole tree (FARCALL inlined) on the reference controller + shapely containment of the chains + source translator: TrenchColumn.n_repeat is re-translated from /repo on every run and proved to be the ceiling the depth-net theorems are about (coq/tie/EquivTc.v); the call file written by TrenchWriter._farcall_trench_column is translated as well and proved to be the model\'s farcall_ops of the abstracted column (coq/tie/EquivFc.v: SRC_C06_call_file), so C06_call_file_safe is a theorem about the source\'s call file',
    text='Props/C06.v: passes of a level are deltaz apart, start at z_off, the last pass of each level is within deltaz of the top of '
         'its box and the next level starts at most deltaz above it, never above the box top - so no depth of the stack is farther '
         'than deltaz from a wall pass; wall / floor / bed files contain only G1 moves. Tie to /repo: real (U-)trench columns dug '
